@@ -157,6 +157,9 @@ def check_case(case):
     th, ob, name = build(case, case["valid"])
     try:
         out = run.run(th, ob)
+        res = out[name]
+        if len(res) != len(ob["observables"][name]) or any(np.shape(val) != (14, len(GRID)) or np.shape(err) != (14, len(GRID)) for r in res for val, err in r.orders.values()):
+            v.fail(f"C16:shape:{kind}:{process}", f"{name}: {len(res)} results / tensor shapes do not match the request ({len(ob['observables'][name])} points, 14 x {len(GRID)})")
         if finite(out[name]):
             v.label("outcome:finite")
         else:
